@@ -1,7 +1,8 @@
 """C05 helper: (1) the reference model (DendroPy-free: label sets, Fractions, the statistics
 module) and (2) further down, the Monitor that hooks the real library and compares it with
 that model (it touches library objects only through the hooks, vf.bridge.extract and the
-public attributes the property statement names).
+public attributes the property statement names).  The Monitor keeps a stack of request frames
+(what the caller of each public entry point asked for) and judges against the outermost request.
 
 --- (1) reference model ---------------------------------------------------------------
 
@@ -123,6 +124,8 @@ class RefDist(object):
         self.tainted = False       # a frequency violation was reported for the real object
         self.queries = 0           # frequency tables read so far (cache populated)
         self.max_edges_per_split = 1
+        self.values_tainted = set()   # "edge-length" / "node-age": a wrong value was reported at counting time
+        self.history = set()       # object histories this collection went through: merged / inserted / recounted
 
     def add(self, spec, rooted, weight):
         if self.rooted is None:
@@ -149,6 +152,46 @@ class RefDist(object):
         self.weights.append(w)
         self.raw_weights.append(weight)
         return contrib
+
+    def merge(self, other):
+        """self <- self followed by other (TreeArray.extend / += / + / update, SplitDistribution.update)."""
+        if other.n == 0:
+            return
+        if self.rooted is None:
+            self.rooted = other.rooted
+        elif other.rooted is not None and self.rooted != other.rooted:
+            self.mixed = True
+        if other.mixed:
+            self.mixed = True
+        if self.full is None:
+            self.full = other.full
+        self.n += other.n
+        self.total += other.total
+        self.exact = self.exact and other.exact
+        for k, c in other.counts.items():
+            self.counts[k] = self.counts.get(k, Fraction(0)) + c
+        for k, v in other.lengths.items():
+            self.lengths.setdefault(k, []).extend(v)
+        for k, v in other.ages.items():
+            self.ages.setdefault(k, []).extend(v)
+        self.max_edges_per_split = max(self.max_edges_per_split, other.max_edges_per_split)
+        self.specs.extend(other.specs)
+        self.topos.extend(other.topos)
+        self.weights.extend(other.weights)
+        self.raw_weights.extend(other.raw_weights)
+        self.history.add("merged")
+        self.history.update(other.history)
+        self.values_tainted.update(other.values_tainted)
+
+    def move_last_to(self, index):
+        """the tree counted last sits at position ``index`` of the collection (list.insert semantics)."""
+        for lst in (self.specs, self.topos, self.weights, self.raw_weights):
+            lst.insert(index, lst.pop())
+        self.history.add("inserted")
+
+    def usable_values(self, store):
+        """has the reference at least one split with a complete (no missing value) list in ``store``."""
+        return any(v and all(x is not None for x in v) for v in store.values())
 
     def freq(self, key):
         c = self.counts.get(key)
@@ -183,6 +226,11 @@ def consensus_failures(S, F, thr, rooted, full, exact, eps=1e-9):
     def surely_out(f):
         return f < t - slack
     fails = []
+    for s in S:
+        if s not in F:
+            # "nothing for splits that occur in no tree": with min_freq=None (no threshold) this is the
+            # only clause that excludes an invented split
+            fails.append(("has-split-that-occurs-in-no-tree", s))
     if thr is not None and thr > 0.5:
         for s, f in F.items():
             if surely_in(f) and s not in S:
@@ -232,6 +280,13 @@ def key_repr(key, rooted, full):
 
 
 # --- (2) monitor ------------------------------------------------------------------------------
+#
+# Requests are judged at the API boundary: every hooked public entry point pushes a *frame* holding
+# what the CALLER asked for (threshold, summarisation settings, construction flags).  The judges
+# (which sit on the SplitDistribution-level functions where the work is done) always take the values
+# of the OUTERMOST frame that names them, so an alias that drops or alters an argument on the way in
+# is judged against the caller's request, and the key says "<route>-request-not-honoured".
+# When an outer entry point returns an object no inner judge has seen, it is judged there.
 GTH = None  # constants.GREATER_THAN_HALF, filled lazily
 
 
@@ -244,6 +299,15 @@ def _gth():
 
 
 _MISSING = object()
+
+FLAG_DEFAULTS = (("use_tree_weights", True), ("ignore_edge_lengths", False), ("ignore_node_ages", True))
+TA_KEYS = ("is_rooted_trees", "ignore_edge_lengths", "ignore_node_ages", "use_tree_weights",
+           "ultrametricity_precision", "is_force_max_age", "taxon_label_age_map", "is_bipartitions_updated")
+NON_SETTING_KEYS = ("tree", "is_bipartitions_updated", "index", "summarize_splits_on_tree", "summarize_splits",
+                    "include_external_splits", "min_freq", "is_rooted")
+MEAN_LEN = ("mean-length", "median-length")
+MEAN_AGE = ("mean-age", "median-age")
+STATS = ("mean", "median", "range", "sd")
 
 
 def _arg(args, kw, idx, name, default=None):
@@ -258,6 +322,32 @@ def _ru(rooted):
     return "rooted" if rooted else "unrooted"
 
 
+def _settings(kw, drop=()):
+    return dict((k, v) for k, v in kw.items() if k not in NON_SETTING_KEYS and k not in drop)
+
+
+def _flags(kw):
+    return dict((k, kw[k]) for k, _ in FLAG_DEFAULTS if k in kw)
+
+
+class Frame(object):
+    """what the caller of one hooked entry point asked for."""
+
+    def __init__(self, op, route):
+        self.op = op              # base name used in violation keys ("consensus", "summarize", ...)
+        self.route = route        # the entry point ("TreeList.consensus", ...)
+        self.thr = _MISSING
+        self.kw = _MISSING        # summarisation settings
+        self.flags = _MISSING     # construction flags of the collection built inside
+        self.legacy = _MISSING    # TreeSummarizer settings
+        self.data = None
+        self.judged_cons = set()  # id(tree) judged for structure (consensus / collapse / max-tree)
+        self.judged_ann = set()   # id(tree) judged for annotations
+        self.prints = {}          # id(tree) -> structure fingerprint at the time it was judged
+        self.tas = []             # TreeArrays constructed while the frame was active
+        self.refs = []            # reference distributions registered while the frame was active
+
+
 class Monitor(object):
     def __init__(self, ctx, ns):
         self.ctx = ctx
@@ -267,8 +357,13 @@ class Monitor(object):
         self.low = min(self.bits, key=self.bits.get)
         self.reg = {}        # id(SplitDistribution) -> (sd, RefDist)
         self.reg_ta = {}     # id(TreeArray) -> (ta, RefDist)
-        self.opstack = []
-        self.last_calc = None
+        self.reg_ts = {}     # id(TreeSummarizer) -> (ts, requested settings)
+        self.frames = []
+        self.merge_depth = 0
+        self.last_exc = None     # the exception an inner hook has already judged
+        self.seen_trees = {}     # id(tree) -> tree: trees that have been counted before (object history)
+        self.own_call = 0        # >0 while the monitor itself queries the library
+        self.force_deep = False  # read the annotations as well as the attributes (set by the harness)
         self.rng = random.Random(0)
 
     # ---- label sets <-> masks ------------------------------------------------------
@@ -288,73 +383,307 @@ class Monitor(object):
         e = self.reg.get(id(sd))
         return e[1] if e is not None and e[0] is sd else None
 
+    def ta_ref(self, ta):
+        e = self.reg_ta.get(id(ta))
+        return e[1] if e is not None and e[0] is ta else None
+
+    def ref_for(self, obj, fr):
+        r = self.ta_ref(obj)
+        if r is None:
+            r = self.ref_of(obj)
+        if r is None and fr is not None:
+            for ta in reversed(fr.tas):
+                r = self.ta_ref(ta)
+                if r is not None:
+                    break
+        if r is None and fr is not None and fr.refs:
+            r = fr.refs[-1]
+        return r
+
+    # ---- frames ------------------------------------------------------------------------
+    def enter(self, op, route, parse=None):
+        def pre(obj, args, kw):
+            fr = Frame(op, route)
+            if parse is not None:
+                parse(fr, obj, args, kw)
+            self.frames.append(fr)
+            return fr
+        return pre
+
+    def leave(self, fr):
+        if fr is None:
+            return
+        if self.frames and self.frames[-1] is fr:
+            self.frames.pop()
+        elif fr in self.frames:
+            del self.frames[self.frames.index(fr):]
+
+    def leaving(self, fn):
+        """post hook that runs fn and then pops the frame (also when fn returns early)."""
+        def post(fr, obj, args, kw, result, exc):
+            try:
+                fn(fr, obj, args, kw, result, exc)
+            finally:
+                self.leave(fr)
+        return post
+
+    def requested(self, field):
+        """(value, frame) of the outermost active frame that names ``field``."""
+        for fr in self.frames:
+            v = getattr(fr, field)
+            if v is not _MISSING:
+                return v, fr
+        return _MISSING, None
+
+    def base_op(self):
+        return self.frames[0].op if self.frames else "summarize"
+
+    def key_op(self, base, field, inner_value):
+        v, fr = self.requested(field)
+        if fr is None or v == inner_value:
+            return base
+        return "%s-request-not-honoured" % fr.route
+
+    @staticmethod
+    def fingerprint(tree):
+        """identity of the node structure (to notice that an object was restructured after it was judged)."""
+        out = []
+        stack = [getattr(tree, "_seed_node", None)]
+        while stack:
+            nd = stack.pop()
+            if nd is None:
+                continue
+            out.append(id(nd))
+            out.append(len(nd._child_nodes))
+            stack.extend(nd._child_nodes)
+        return hash(tuple(out))
+
+    def mark(self, which, tree):
+        fp = self.fingerprint(tree) if which == "judged_cons" else None
+        for fr in self.frames:
+            getattr(fr, which).add(id(tree))
+            if fp is not None:
+                fr.prints[id(tree)] = fp
+
+    def judged_unchanged(self, fr, tree):
+        return id(tree) in fr.judged_cons and fr.prints.get(id(tree)) == self.fingerprint(tree)
+
+    def report_exc(self, op, exc, detail=None):
+        if exc is self.last_exc:
+            return
+        self.last_exc = exc
+        self.ctx.unexpected(op, exc, detail)
+
+    def seen_by_hooks(self, exc):
+        return exc is self.last_exc
+
+    # ---- parsers of the requests ------------------------------------------------------
+    @staticmethod
+    def p_sd_consensus(fr, obj, args, kw):
+        fr.thr = _arg(args, kw, 0, "min_freq", _gth())
+        fr.kw = _settings(kw)
+        fr.data = {"summarize": _arg(args, kw, 2, "summarize_splits", True)}
+
+    @staticmethod
+    def p_ta_consensus(fr, obj, args, kw):
+        fr.thr = _arg(args, kw, 0, "min_freq", _gth())
+        fr.kw = _settings(kw)
+        fr.data = {"summarize": _arg(args, kw, 1, "summarize_splits", True)}
+
+    @staticmethod
+    def p_tl_consensus(fr, obj, args, kw):
+        fr.thr = _arg(args, kw, 0, "min_freq", _gth())
+        fr.kw = _settings(kw, drop=TA_KEYS)
+        fr.flags = _flags(kw)
+        fr.data = {"summarize": _arg(args, kw, 2, "summarize_splits", True)}
+
+    @staticmethod
+    def p_summarize(fr, obj, args, kw):
+        fr.kw = _settings(kw)
+        fr.data = {"tree": _arg(args, kw, 0, "tree")}
+
+    @staticmethod
+    def p_collapse(fr, obj, args, kw):
+        fr.thr = _arg(args, kw, 1, "min_freq", _gth())
+        tree = _arg(args, kw, 0, "tree")
+        try:
+            spec = bridge.extract(tree)
+        except bridge.ExtractError:
+            spec = None
+        fr.data = {"tree": tree, "pre": spec}
+
+    @staticmethod
+    def p_maxtree(fr, obj, args, kw):
+        fr.kw = _settings(kw)
+        fr.data = {"incl": _arg(args, kw, 0, "include_external_splits", False),
+                   "summarize": _arg(args, kw, 1, "summarize_splits", True)}
+
+    @staticmethod
+    def p_restore(fr, obj, args, kw):
+        fr.kw = _settings(kw)
+        fr.data = {"summarize": _arg(args, kw, 1, "summarize_splits_on_tree", False),
+                   "index": _arg(args, kw, 0, "index")}
+
+    @staticmethod
+    def p_tl_max(fr, obj, args, kw):
+        fr.flags = {}          # the collection is summarised with the default flags
+        fr.data = {"incl": _arg(args, kw, 0, "include_external_splits", False)}
+
+    @staticmethod
+    def p_flags_kw(fr, obj, args, kw):
+        fr.flags = _flags(kw)
+
+    @staticmethod
+    def p_from_tree_list(fr, obj, args, kw):
+        fl = {}
+        for idx, (name, _) in ((4, FLAG_DEFAULTS[0]), (2, FLAG_DEFAULTS[1]), (3, FLAG_DEFAULTS[2])):
+            v = _arg(args, kw, idx, name, _MISSING)
+            if v is not _MISSING:
+                fl[name] = v
+        fr.flags = fl
+
+    def p_ta_add(self, fr, obj, args, kw):
+        r = self.ta_ref(obj)
+        if r is not None:
+            fr.flags = {"use_tree_weights": r.use_weights, "ignore_edge_lengths": r.ignore_lengths,
+                        "ignore_node_ages": r.ignore_ages}
+
+    @staticmethod
+    def p_legacy_module_consensus(fr, obj, args, kw):
+        fr.thr = _arg(args, kw, 1, "min_freq", 0.5)
+        fr.legacy = dict((k, v) for k, v in kw.items() if k not in ("min_freq", "is_bipartitions_updated", "trees"))
+
+    @staticmethod
+    def p_legacy_thr1(fr, obj, args, kw):
+        fr.thr = _arg(args, kw, 1, "min_freq", 0.5)
+
     # ---- installation -----------------------------------------------------------------
     def install(self, hooks):
         from dendropy.datamodel import treecollectionmodel as tcm
         from dendropy.calculate import treesum
         SD, TA, TL = tcm.SplitDistribution, tcm.TreeArray, tcm.TreeList
         kw = {"outermost_only": False}
+        L = self.leaving
         hooks.install(SD, "__init__", post=self.sd_init, **kw)
         hooks.install(TA, "__init__", post=self.ta_init, **kw)
         hooks.install(SD, "count_splits_on_tree", pre=self.count_pre, post=self.count_post, **kw)
         hooks.install(SD, "__getitem__", **kw)
         hooks.install(SD, "calc_freqs", **kw)
-        hooks.install(SD, "consensus_tree", pre=self.push("consensus"), post=self.consensus_post, **kw)
-        hooks.install(SD, "summarize_splits_on_tree", post=self.summarize_post, **kw)
-        hooks.install(SD, "collapse_edges_with_less_than_minimum_support", pre=self.collapse_pre,
-                      post=self.collapse_post, **kw)
+        hooks.install(SD, "update", pre=self.merge_pre("SplitDistribution.update"),
+                      post=self.merge_post("SplitDistribution.update"), **kw)
+        # C: consensus
+        hooks.install(SD, "consensus_tree", pre=self.enter("consensus", "SplitDistribution.consensus_tree",
+                                                           self.p_sd_consensus), post=L(self.consensus_post), **kw)
+        hooks.install(TA, "consensus_tree", pre=self.enter("consensus", "TreeArray.consensus_tree", self.p_ta_consensus),
+                      post=L(self.outer_consensus_post), **kw)
+        hooks.install(TL, "consensus", pre=self.enter("consensus", "TreeList.consensus", self.p_tl_consensus),
+                      post=L(self.outer_consensus_post), **kw)
+        # S: annotations
+        hooks.install(SD, "summarize_splits_on_tree", pre=self.enter("summarize", "SplitDistribution.summarize_splits_on_tree",
+                                                                     self.p_summarize), post=L(self.summarize_post), **kw)
+        hooks.install(TA, "summarize_splits_on_tree", pre=self.enter("summarize", "TreeArray.summarize_splits_on_tree",
+                                                                     self.p_summarize), post=L(self.outer_summarize_post), **kw)
+        hooks.install(SD, "split_support_iter", **kw)
+        # K: collapse
+        hooks.install(SD, "collapse_edges_with_less_than_minimum_support",
+                      pre=self.enter("collapse", "SplitDistribution.collapse_edges_with_less_than_minimum_support", self.p_collapse),
+                      post=L(self.collapse_post), **kw)
+        hooks.install(TA, "collapse_edges_with_less_than_minimum_support",
+                      pre=self.enter("collapse", "TreeArray.collapse_edges_with_less_than_minimum_support", self.p_collapse),
+                      post=L(self.outer_collapse_post), **kw)
+        # M: credibility trees
         hooks.install(TA, "calculate_log_product_of_split_supports", post=self.calc_post("log-product"), **kw)
         hooks.install(TA, "calculate_sum_of_split_supports", post=self.calc_post("sum"), **kw)
-        hooks.install(TA, "maximum_product_of_split_support_tree", pre=self.push("max-product-tree"),
-                      post=self.maxtree_post("log-product"), **kw)
-        hooks.install(TA, "maximum_sum_of_split_support_tree", pre=self.push("max-sum-tree"),
-                      post=self.maxtree_post("sum"), **kw)
-        hooks.install(TA, "from_tree_list", post=self.from_tree_list_post, **kw)
-        hooks.install(TA, "consensus_tree", **kw)
-        hooks.install(TA, "restore_tree", **kw)
-        hooks.install(TL, "consensus", **kw)
-        hooks.install(TL, "split_distribution", post=self.tl_split_distribution_post, **kw)
-        hooks.install(TL, "maximum_product_of_split_support_tree", pre=self.clear_calc,
-                      post=self.tl_maxtree_post("log-product"), **kw)
-        hooks.install(TL, "maximum_sum_of_split_support_tree", pre=self.clear_calc,
-                      post=self.tl_maxtree_post("sum"), **kw)
-        hooks.install(treesum.TreeSummarizer, "tree_from_splits", post=self.legacy_tree_from_splits_post, **kw)
-        hooks.install(treesum.TreeSummarizer, "map_split_support_to_tree", post=self.legacy_map_support_post, **kw)
-
-    def push(self, op):
-        def pre(obj, args, kw):
-            self.opstack.append(op)
-            return op
-        return pre
-
-    def pop(self, snap):
-        if snap is not None and self.opstack and self.opstack[-1] == snap:
-            self.opstack.pop()
-
-    def clear_calc(self, obj, args, kw):
-        self.last_calc = None
+        hooks.install(TA, "maximum_product_of_split_support_tree",
+                      pre=self.enter("max-product-tree", "TreeArray.maximum_product_of_split_support_tree", self.p_maxtree),
+                      post=L(self.maxtree_post("log-product")), **kw)
+        hooks.install(TA, "maximum_sum_of_split_support_tree",
+                      pre=self.enter("max-sum-tree", "TreeArray.maximum_sum_of_split_support_tree", self.p_maxtree),
+                      post=L(self.maxtree_post("sum")), **kw)
+        hooks.install(TA, "restore_tree", pre=self.enter("restore_tree", "TreeArray.restore_tree", self.p_restore),
+                      post=L(self.restore_post), **kw)
+        hooks.install(TL, "maximum_product_of_split_support_tree",
+                      pre=self.enter("TreeList.max-product-tree", "TreeList.maximum_product_of_split_support_tree", self.p_tl_max),
+                      post=L(self.tl_maxtree_post("log-product")), **kw)
+        hooks.install(TL, "maximum_sum_of_split_support_tree",
+                      pre=self.enter("TreeList.max-sum-tree", "TreeList.maximum_sum_of_split_support_tree", self.p_tl_max),
+                      post=L(self.tl_maxtree_post("sum")), **kw)
+        # construction / accession / merge routes
+        hooks.install(TA, "from_tree_list", pre=self.enter("from_tree_list", "TreeArray.from_tree_list", self.p_from_tree_list),
+                      post=L(self.from_tree_list_post), **kw)
+        hooks.install(TL, "as_tree_array", pre=self.enter("as_tree_array", "TreeList.as_tree_array", self.p_flags_kw),
+                      post=L(self.from_tree_list_post), **kw)
+        hooks.install(TL, "split_distribution", pre=self.enter("split_distribution", "TreeList.split_distribution", self.p_flags_kw),
+                      post=L(self.tl_split_distribution_post), **kw)
+        hooks.install(TL, "frequency_of_bipartition", **kw)
+        hooks.install(TA, "add_tree", pre=self.add_tree_pre, post=self.add_tree_post, **kw)
+        hooks.install(TA, "add_trees", **kw)
+        hooks.install(TA, "insert", **kw)
+        for name in ("update", "extend", "__iadd__"):
+            hooks.install(TA, name, pre=self.merge_pre("TreeArray.%s" % name), post=self.merge_post("TreeArray.%s" % name), **kw)
+        hooks.install(TA, "__add__", pre=self.add_pre, post=self.merge_post("TreeArray.__add__"), **kw)
+        # legacy treesum
+        TS = treesum.TreeSummarizer
+        hooks.install(TS, "__init__", post=self.ts_init, **kw)
+        hooks.install(treesum, "consensus_tree", pre=self.enter("legacy-consensus_tree", "treesum.consensus_tree",
+                                                                self.p_legacy_module_consensus), post=L(self.legacy_outer_post), **kw)
+        hooks.install(TS, "consensus_tree", pre=self.enter("legacy-consensus_tree", "TreeSummarizer.consensus_tree",
+                                                           self.p_legacy_thr1), post=L(self.legacy_outer_post), **kw)
+        hooks.install(TS, "tree_from_splits", pre=self.enter("legacy-tree_from_splits", "TreeSummarizer.tree_from_splits",
+                                                             self.p_legacy_thr1), post=L(self.legacy_tree_from_splits_post), **kw)
+        hooks.install(TS, "map_split_support_to_tree", post=self.legacy_map_support_post, **kw)
+        hooks.install(TS, "annotate_nodes_and_edges", post=self.legacy_annotate_post, **kw)
+        hooks.install(TS, "summarize_edge_lengths_on_tree", pre=self.legacy_values_pre,
+                      post=self.legacy_values_post("edge-length"), **kw)
+        hooks.install(TS, "summarize_node_ages_on_tree", pre=self.legacy_values_pre,
+                      post=self.legacy_values_post("node-age"), **kw)
 
     # ---- construction ---------------------------------------------------------------------
+    def _requested_flags(self, args, kw, idxs):
+        fl, fr = self.requested("flags")
+        out = {}
+        for (name, default), idx in zip(FLAG_DEFAULTS, idxs):
+            if fr is not None:
+                out[name] = fl.get(name, default)
+            else:
+                out[name] = _arg(args, kw, idx, name, default)
+        return out
+
     def sd_init(self, snap, sd, args, kw, result, exc):
         if exc is not None:
             return
-        r = RefDist(use_weights=_arg(args, kw, 3, "use_tree_weights", True),
-                    ignore_lengths=_arg(args, kw, 1, "ignore_edge_lengths", False),
-                    ignore_ages=_arg(args, kw, 2, "ignore_node_ages", True))
+        fl = self._requested_flags(args, kw, (3, 1, 2))
+        r = RefDist(use_weights=fl["use_tree_weights"], ignore_lengths=fl["ignore_edge_lengths"],
+                    ignore_ages=fl["ignore_node_ages"])
         self.reg[id(sd)] = (sd, r)
+        for fr in self.frames:
+            fr.refs.append(r)
 
     def ta_init(self, snap, ta, args, kw, result, exc):
         if exc is not None:
             return
         r = self.ref_of(ta._split_distribution)
         if r is None:
-            self.ctx.note("treearray-distribution-not-registered")
+            self.ctx.mark_inconclusive("a TreeArray's distribution was constructed unobserved")
             return
+        fl = self._requested_flags(args, kw, (4, 2, 3))
         r.owner = "TreeArray"
-        r.use_weights = _arg(args, kw, 4, "use_tree_weights", True)
-        r.ignore_lengths = _arg(args, kw, 2, "ignore_edge_lengths", False)
-        r.ignore_ages = _arg(args, kw, 3, "ignore_node_ages", True)
+        r.use_weights = fl["use_tree_weights"]
+        r.ignore_lengths = fl["ignore_edge_lengths"]
+        r.ignore_ages = fl["ignore_node_ages"]
         self.reg_ta[id(ta)] = (ta, r)
+        for fr in self.frames:
+            fr.tas.append(ta)
+
+    def ts_init(self, snap, ts, args, kw, result, exc):
+        if exc is None:
+            leg, fr = self.requested("legacy")
+            self.reg_ts[id(ts)] = (ts, dict(leg) if fr is not None else dict(kw))
+
+    def tag(self, sd, what):
+        r = self.ref_of(sd)
+        if r is not None:
+            r.history.add(what)
 
     # ---- lock-step advance ---------------------------------------------------------------------
     def count_pre(self, sd, args, kw):
@@ -363,22 +692,27 @@ class Monitor(object):
             spec = bridge.extract(tree)
         except bridge.ExtractError:
             return None
-        return (spec, bool(tree.is_rooted), tree.weight)
+        before = self.seen_trees.get(id(tree)) is tree
+        self.seen_trees[id(tree)] = tree
+        return (spec, bool(tree.is_rooted), tree.weight, before)
 
     def count_post(self, snap, sd, args, kw, result, exc):
         ctx = self.ctx
         if exc is not None:
-            ctx.unexpected("count_splits_on_tree", exc)
+            self.report_exc("count_splits_on_tree", exc)
             return
         r = self.ref_of(sd)
         if r is None or snap is None:
-            ctx.note("count-on-unregistered-distribution")
+            ctx.mark_inconclusive("a tree was counted on an unobserved distribution / could not be extracted")
             return
-        spec, rooted, weight = snap
+        spec, rooted, weight, before = snap
         if frozenset(ref.leaf_taxa(spec)) != self.full or len(ref.leaf_taxa(spec)) != len(self.full):
-            ctx.note("tree-leafset-differs-from-namespace")
+            ctx.mark_inconclusive("the harness counted a tree whose leaves are not the namespace's taxa")
         contrib = r.add(spec, rooted, weight)
         ctx.ev("lockstep-advance")
+        if before:
+            ctx.ev("lockstep-advance:tree-object-counted-before")
+            r.history.add("recounted")
         if r.queries:
             r.pending_invalidation = True
         rooted = r.rooted
@@ -390,8 +724,13 @@ class Monitor(object):
         if got != sorted(exp):
             dup = len(set(got)) != len(got)
             r.tainted = True
-            ctx.violation("count|%s|%s" % ("same-split-counted-twice-in-one-tree" if dup else "splits-of-tree-wrong",
-                                           _ru(rooted)),
+            disc = ""
+            if dup and len(spec[3]) == 2 and not spec[3][0][3] and not spec[3][1][3]:
+                disc = "|basal-bifurcation-of-two-leaves"      # a two-leaf tree: the basal bifurcation cannot be collapsed
+            elif before and not dup:
+                disc = "|tree-object-counted-before"
+            ctx.violation("count|%s|%s%s" % ("same-split-counted-twice-in-one-tree" if dup else "splits-of-tree-wrong",
+                                             _ru(rooted), disc),
                           "count_splits_on_tree returned %s, tree has %s" % (got, sorted(exp)),
                           {"tree": ref.to_newick(spec), "bits": self.bits})
             return
@@ -402,6 +741,7 @@ class Monitor(object):
                     continue
                 ctx.ev("count-length-checked")
                 if ln is None or not close(ln, want):
+                    r.values_tainted.add("edge-length")
                     ctx.violation("count|edge-length-of-split-wrong|%s" % _ru(rooted),
                                   "length %r recorded for split, tree has %r" % (ln, want),
                                   {"tree": ref.to_newick(spec), "split": key_repr(exp[m][0], rooted, self.full)})
@@ -413,24 +753,90 @@ class Monitor(object):
                     continue
                 ctx.ev("count-age-checked")
                 if ag is None or not close(ag, want):
+                    r.values_tainted.add("node-age")
                     ctx.violation("count|node-age-of-split-wrong", "age %r recorded, tree has %r" % (ag, want),
                                   {"tree": ref.to_newick(spec), "split": key_repr(exp[m][0], rooted, self.full)})
                     break
 
+    def add_tree_pre(self, ta, args, kw):
+        r = self.ta_ref(ta)
+        return (r, r.n if r is not None else None)
+
+    def add_tree_post(self, snap, ta, args, kw, result, exc):
+        r, n0 = snap
+        if exc is not None:
+            self.report_exc("TreeArray.add_tree", exc)
+            return
+        index = _arg(args, kw, 2, "index")
+        if r is not None and index is not None and r.n == n0 + 1:
+            r.move_last_to(index)
+            self.ctx.ev("insert-followed")
+
+    # ---- merge routes ----------------------------------------------------------------------------
+    def merge_pre(self, kind):
+        def pre(obj, args, kw):
+            self.merge_depth += 1
+            return (self.merge_depth == 1, None)
+        return pre
+
+    def add_pre(self, obj, args, kw):
+        self.merge_depth += 1
+        fr = Frame("merge", "TreeArray.__add__")
+        self.p_ta_add(fr, obj, args, kw)
+        self.frames.append(fr)
+        return (self.merge_depth == 1, fr)
+
+    def merge_post(self, kind):
+        def post(snap, obj, args, kw, result, exc):
+            outer, fr = snap
+            self.merge_depth -= 1
+            self.leave(fr)
+            if not outer:
+                return
+            ctx = self.ctx
+            if exc is not None:
+                # only compatible collections are merged by the harness
+                self.report_exc(kind, exc)
+                return
+            other = args[0] if args else (list(kw.values())[0] if kw else None)
+            if kind == "SplitDistribution.update":
+                dst, parts = self.ref_of(obj), [self.ref_of(other)]
+            elif kind == "TreeArray.__add__":
+                dst, parts = self.ta_ref(result), [self.ta_ref(obj), self.ta_ref(other)]
+            else:
+                dst, parts = self.ta_ref(obj), [self.ta_ref(other)]
+            if dst is None or any(p is None for p in parts):
+                ctx.mark_inconclusive("%s on a collection the monitor did not see being built" % kind)
+                return
+            for p in parts:
+                dst.merge(p)
+                if p.tainted:
+                    dst.tainted = True
+            if dst.queries:
+                dst.pending_invalidation = True
+            ctx.ev("merge-followed")
+            ctx.ev("merge-followed:%s" % kind)
+        return post
+
     # ---- F: frequencies -------------------------------------------------------------------------
-    def check_frequencies(self, sd, where="query"):
+    def check_frequencies(self, sd, where="query", direct=False):
         ctx = self.ctx
         r = self.ref_of(sd)
         if r is None:
-            ctx.note("frequency-query-on-unregistered-distribution")
+            ctx.mark_inconclusive("frequency query on a distribution the monitor did not see being built")
             return False
         if r.n == 0 or r.mixed or not r.total:
+            ctx.note("empty-or-mixed-distribution-not-judged")
             return False
         if r.tainted:
             ctx.note("downstream-not-judged-after-frequency-violation")
             return False
         rel = 1e-12 if r.exact else 1e-9
-        table = sd.split_frequencies
+        if direct:
+            table = sd.calc_freqs()
+            ctx.ev("calc_freqs-called-directly")
+        else:
+            table = sd.split_frequencies
         expected = {}
         for k in r.counts:
             expected[self.mask(k, r.rooted)] = k
@@ -465,11 +871,15 @@ class Monitor(object):
             ctx.ev("cache-invalidation-observed")
             r.pending_invalidation = False
         r.queries += 1
+        for tag in r.history:
+            ctx.ev("freq-checked-after:%s" % tag)
         if bad is None:
             return True
         clause, m, k, got, f = bad
         r.tainted = True
         disc = r.owner
+        if "merged" in r.history:
+            disc += "-after-merge"
         if clause == "wrong-value":
             # does the table equal the one obtained under the opposite weight policy?
             alt = self._alt_freq(r, k)
@@ -477,17 +887,16 @@ class Monitor(object):
                     and getattr(sd, "use_tree_weights", None)):
                 disc = "TreeArray-use_tree_weights-False-ignored"
             elif getattr(r, "stale_suspect", None) is not None and close(got, r.stale_suspect.get(m, -1.0)):
-                disc = "%s|table-of-an-earlier-state" % r.owner
+                disc = "%s|table-of-an-earlier-state" % disc
         ctx.violation("frequency|%s|%s" % (clause, disc),
                       "sd[%s] = %r, reference %r after %d trees (%s)" % (bin(m), got, f, r.n, where),
                       {"trees": [ref.to_newick(s) for s in r.specs[:8]], "tree.weight": r.raw_weights[:8],
-                       "weights-the-reference-used": r.weights[:8],
+                       "weights-the-reference-used": r.weights[:8], "history": sorted(r.history),
                        "split": key_repr(k, r.rooted, self.full) if k is not None else bin(m),
                        "rooted": r.rooted, "use_tree_weights_requested": r.use_weights, "bits": self.bits})
         return False
 
     def _alt_freq(self, r, key):
-        from fractions import Fraction
         tot = Fraction(0)
         cnt = Fraction(0)
         for spec, w in zip(r.specs, r.raw_weights):
@@ -508,36 +917,167 @@ class Monitor(object):
         if r is not None and r.n:
             r.stale_suspect = dict((self.mask(k, r.rooted), r.freq(k)) for k in r.counts)
 
-    def from_tree_list_post(self, snap, obj, args, kw, result, exc):
-        if exc is None:
-            self.check_frequencies(result._split_distribution, "TreeArray.from_tree_list")
+    def from_tree_list_post(self, fr, obj, args, kw, result, exc):
+        if exc is not None:
+            self.report_exc(fr.route, exc)
+        elif not self.own_call:
+            self.check_frequencies(result._split_distribution, fr.route)
 
-    def tl_split_distribution_post(self, snap, obj, args, kw, result, exc):
-        if exc is None:
-            self.check_frequencies(result, "TreeList.split_distribution")
+    def tl_split_distribution_post(self, fr, obj, args, kw, result, exc):
+        if exc is not None:
+            self.report_exc(fr.route, exc)
+        else:
+            self.check_frequencies(result, fr.route)
+
+    def check_treelist_frequency(self, tl, rng, n_queries=4):
+        """F through TreeList.frequency_of_bipartition (documented: the proportion of the trees of the list
+        that contain the split -- unweighted; normalised for unrooted trees), all four ways of naming a split."""
+        import dendropy
+        ctx = self.ctx
+        trees = list(tl)
+        if not trees:
+            return
+        infos = []
+        for t in trees:
+            try:
+                spec = bridge.extract(t)
+            except bridge.ExtractError:
+                ctx.mark_inconclusive("member tree could not be extracted")
+                return
+            rooted = bool(t.is_rooted)
+            infos.append((rooted, ref.topology(spec, rooted)))
+        allmask = self.mask_of(self.full)
+        labels_sorted = sorted(self.full)
+        by_label = dict((t.label, t) for t in self.ns)
+        for q in range(n_queries):
+            if q % 2 == 0:
+                rooted, topo = infos[rng.randrange(len(infos))]
+                if rooted:
+                    side = rng.choice(sorted(topo, key=sorted))
+                else:
+                    k = rng.choice(sorted(topo, key=lambda k: sorted(sorted(x) for x in k)))
+                    side = rng.choice(sorted(k, key=sorted))
+            else:
+                side = frozenset(x for x in labels_sorted if rng.random() < 0.5)
+            side = frozenset(side)
+            found = 0
+            for rooted, topo in infos:
+                if (side in topo) if rooted else (ref.usplit(side, self.full) in topo):
+                    found += 1
+            want = Fraction(found, len(infos))
+            form = rng.choice(["split_bitmask", "labels", "taxa", "bipartition"])
+            if form == "split_bitmask":
+                kwq = {"split_bitmask": self.mask_of(side)}
+            elif form == "labels":
+                kwq = {"labels": sorted(side)}
+            elif form == "taxa":
+                kwq = {"taxa": [by_label[x] for x in sorted(side)]}
+            else:
+                kwq = {"bipartition": dendropy.Bipartition(leafset_bitmask=self.mask_of(side), tree_leafset_bitmask=allmask,
+                                                           is_rooted=infos[0][0])}
+            try:
+                got = tl.frequency_of_bipartition(**kwq)
+            except Exception as e:
+                self.report_exc("TreeList.frequency_of_bipartition", e)
+                return
+            ctx.ev("treelist-frequency-checked")
+            if not close(got, float(want), rel=1e-12, abs_=1e-15):
+                ctx.violation("TreeList.frequency_of_bipartition|wrong-value|%s|%s" % (form, _ru(infos[0][0])),
+                              "frequency_of_bipartition(%s) = %r, %d of %d trees contain the split" % (
+                                  form, got, found, len(infos)),
+                              {"split": sorted(side), "bits": self.bits, "n_trees": len(infos)})
+                return
+
+    def check_support_iter(self, sd, tree, rng):
+        """S through SplitDistribution.split_support_iter: the supports of the (internal) nodes of an ENCODED tree."""
+        ctx = self.ctx
+        r = self.ref_of(sd)
+        if not self.usable(r):
+            return
+        try:
+            spec = bridge.extract(tree)
+        except bridge.ExtractError:
+            return
+        cl = ref.clades(spec)
+        if cl[-1][1] != self.full:
+            return
+        incl = rng.random() < 0.5
+        strat = rng.choice(["preorder", "postorder"])
+        want = sorted(r.freq(split_key(c, self.full, r.rooted)) for n, c in cl if incl or n[3])
+        try:
+            upd = bool(getattr(tree, "bipartition_encoding", None)) and rng.random() < 0.5
+            got = sorted(sd.split_support_iter(tree, is_bipartitions_updated=upd,
+                                               include_external_splits=incl, traversal_strategy=strat))
+        except Exception as e:
+            self.report_exc("split_support_iter", e)
+            return
+        ctx.ev("support-iter-checked")
+        rel = 1e-12 if r.exact else 1e-9
+        if len(got) != len(want) or any(not close(a, b, rel=rel, abs_=1e-13) for a, b in zip(got, want)):
+            ctx.violation("split_support_iter|support-wrong|%s" % _ru(r.rooted),
+                          "supports %r, frequencies of the tree's splits %r" % (got[:12], want[:12]),
+                          {"target": ref.to_newick(spec), "include_external_splits": incl,
+                           "trees": [ref.to_newick(s) for s in r.specs[:8]]})
+            return
+        # the per-tree scores of the distribution (the statement does not define the scores: recorded, not judged)
+        try:
+            ssum = sd.sum_of_split_support_on_tree(tree, is_bipartitions_updated=True, include_external_splits=incl)
+            slog = sd.log_product_of_split_support_on_tree(tree, is_bipartitions_updated=True, include_external_splits=incl)
+        except Exception as e:
+            self.report_exc("split-support-score-of-a-tree", e)
+            return
+        ctx.ev("per-tree-score-recorded")
+        if not close(ssum, sum(want), rel=1e-9, abs_=1e-9) or \
+                not close(slog, sum(math.log(f) for f in want if f), rel=1e-9, abs_=1e-9):
+            ctx.note("per-tree-score-differs-from-the-sum-/-log-product-of-the-supports")
 
     # ---- C: consensus ---------------------------------------------------------------------------------
     def usable(self, r):
         if r is None:
-            self.ctx.note("operation-on-unregistered-distribution")
+            self.ctx.mark_inconclusive("operation on a distribution the monitor did not see being built")
             return False
         if r.tainted:
             self.ctx.note("downstream-not-judged-after-frequency-violation")
             return False
         if r.mixed or r.n == 0 or not r.total:
+            self.ctx.note("empty-or-mixed-distribution-not-judged")
             return False
         return True
 
-    def consensus_post(self, snap, sd, args, kw, result, exc):
-        self.pop(snap)
+    def consensus_post(self, fr, sd, args, kw, result, exc):
         if exc is not None:
-            self.ctx.unexpected("consensus_tree", exc)
+            self.report_exc("consensus_tree", exc)
             return
         r = self.ref_of(sd)
         if not self.usable(r):
             return
-        thr = _arg(args, kw, 0, "min_freq", _gth())
-        self.judge_consensus("consensus", result, r, thr)
+        thr, _ = self.requested("thr")
+        self.judge_consensus(self.key_op("consensus", "thr", fr.thr), result, r, thr)
+        self.mark("judged_cons", result)
+
+    def outer_consensus_post(self, fr, obj, args, kw, result, exc):
+        """TreeArray.consensus_tree / TreeList.consensus: whatever is handed to the caller must have been judged
+        against the caller's request."""
+        if exc is not None:
+            self.report_exc(fr.route, exc)
+            return
+        need_ann = bool(fr.data["summarize"])
+        structure_judged = self.judged_unchanged(fr, result)
+        if structure_judged and (not need_ann or id(result) in fr.judged_ann):
+            return
+        r = self.ref_for(obj, fr)
+        if not self.usable(r):
+            return
+        thr, _ = self.requested("thr")
+        if not structure_judged:
+            self.ctx.ev("judged-at-the-outer-boundary")
+            self.judge_consensus(fr.route, result, r, thr)
+            self.mark("judged_cons", result)
+        if need_ann and id(result) not in fr.judged_ann:
+            self.ctx.ev("judged-at-the-outer-boundary")
+            kwr, _ = self.requested("kw")
+            self.judge_annotations(fr.route, result, r, kwr)
+            self.mark("judged_ann", result)
 
     def judge_consensus(self, op, tree, r, thr):
         ctx = self.ctx
@@ -563,6 +1103,8 @@ class Monitor(object):
         F = r.nontrivial_freqs()
         majority = thr is not None and thr > 0.5
         ctx.ev("consensus-majority-checked" if majority else "consensus-greedy-checked")
+        if "merged" in r.history:
+            ctx.ev("consensus-checked-after-merge")
         fails = consensus_failures(S, F, thr, r.rooted, self.full, r.exact)
         seen = set()
         for clause, key in fails:
@@ -579,21 +1121,77 @@ class Monitor(object):
         return spec
 
     # ---- S: annotations ------------------------------------------------------------------------------------
-    def summarize_post(self, snap, sd, args, kw, result, exc):
+    def summary_error(self, op, r, exc, sels):
+        """an exception of the summariser: the documented ValueError ("... not available") is accepted only when
+        the reference has no length / age data either; on a request the reference can answer it is a violation."""
         ctx = self.ctx
-        op = self.opstack[-1] if self.opstack else "summarize"
-        if exc is not None:
-            sel = kw.get("set_edge_lengths")
-            if isinstance(exc, ValueError) and sel in ("mean-length", "median-length", "mean-age", "median-age"):
-                ctx.ev("documented-error:summarize:ValueError")
-                return
-            ctx.unexpected("summarize_splits_on_tree", exc)
+        if exc is self.last_exc:
             return
+        if isinstance(exc, ValueError) and any(s in MEAN_LEN + MEAN_AGE for s in sels):
+            self.last_exc = exc
+            unanswerable = r is None or r.n == 0 or r.mixed
+            for s in sels:
+                if s in MEAN_LEN and (unanswerable or r.ignore_lengths or not r.usable_values(r.lengths)):
+                    ctx.ev("documented-error:summarize:ValueError")
+                    return
+                if s in MEAN_AGE and (unanswerable or r.ignore_ages or not r.rooted or not r.usable_values(r.ages)):
+                    ctx.ev("documented-error:summarize:ValueError")
+                    return
+            if r.tainted:
+                return
+            ctx.violation("%s|raised-on-valid-request|set_edge_lengths=%s" % (op, sorted(s for s in sels if s)[0]),
+                          "summarisation raised %s although the input trees carry the requested values" % core_brief(exc),
+                          {"trees": [ref.to_newick(s) for s in r.specs[:8]], "rooted": r.rooted})
+            return
+        self.report_exc(op, exc)
+
+    def summarize_post(self, fr, sd, args, kw, result, exc):
+        base = self.base_op()
+        kwr, _ = self.requested("kw")
         r = self.ref_of(sd)
+        if exc is not None:
+            self.summary_error(base, r, exc, set([kwr.get("set_edge_lengths"), fr.kw.get("set_edge_lengths")]))
+            return
         if not self.usable(r):
             return
         tree = _arg(args, kw, 0, "tree")
-        self.judge_annotations(op, tree, r, kw)
+        self.judge_annotations(self.key_op(base, "kw", fr.kw), tree, r, kwr)
+        self.mark("judged_ann", tree)
+
+    def outer_summarize_post(self, fr, ta, args, kw, result, exc):
+        if exc is not None:
+            self.summary_error(fr.op, self.ta_ref(ta), exc, set([fr.kw.get("set_edge_lengths")]))
+            return
+        tree = fr.data["tree"]
+        if id(tree) in fr.judged_ann:
+            return
+        r = self.ref_for(ta, fr)
+        if not self.usable(r):
+            return
+        self.ctx.ev("judged-at-the-outer-boundary")
+        kwr, _ = self.requested("kw")
+        self.judge_annotations(fr.route, tree, r, kwr)
+        self.mark("judged_ann", tree)
+
+    def restore_post(self, fr, ta, args, kw, result, exc):
+        if exc is not None:
+            self.report_exc(fr.route, exc)
+            return
+        if self.frames and self.frames[0] is not fr:
+            return                      # part of a max-credibility request: judged there
+        r = self.ta_ref(ta)
+        if not self.usable(r):
+            return
+        idx = fr.data["index"]
+        try:
+            spec = bridge.extract(result)
+        except bridge.ExtractError as ex:
+            self.ctx.violation("restore_tree|malformed-tree", str(ex))
+            return
+        self.ctx.ev("restore-checked")
+        if fr.data["summarize"] and id(result) not in fr.judged_ann:
+            self.ctx.ev("judged-at-the-outer-boundary")
+            self.judge_annotations(fr.route, result, r, fr.kw)
 
     def judge_annotations(self, op, tree, r, kw):
         ctx = self.ctx
@@ -605,7 +1203,7 @@ class Monitor(object):
         nm = bridge.node_map(nodes)
         cl = ref.clades(spec)
         if cl[-1][1] != self.full or len(ref.leaf_taxa(spec)) != len(self.full):
-            ctx.note("summarised-target-leafset-differs-from-namespace")
+            ctx.mark_inconclusive("the harness summarised a target whose leaves are not the namespace's taxa")
             return
         rooted = r.rooted
         pct = kw.get("support_as_percentages", False)
@@ -613,10 +1211,19 @@ class Monitor(object):
         as_ann = kw.get("add_support_as_node_annotation", True)
         as_label = kw.get("set_support_as_node_label", None)
         dec = kw.get("support_label_decimals", 4)
+        compose = kw.get("support_label_compose_fn", None)
         sel = kw.get("set_edge_lengths", None)
-        len_attr = kw.get("add_edge_length_summaries_as_edge_attributes", True) and not r.ignore_lengths
-        age_attr = kw.get("add_node_age_summaries_as_node_attributes", True) and not r.ignore_ages and rooted
+        len_on = not r.ignore_lengths
+        age_on = not r.ignore_ages and rooted
+        len_attr = kw.get("add_edge_length_summaries_as_edge_attributes", True)
+        len_ann = kw.get("add_edge_length_summaries_as_edge_annotations", True)
+        age_attr = kw.get("add_node_age_summaries_as_node_attributes", True)
+        age_ann = kw.get("add_node_age_summaries_as_node_annotations", True)
+        # annotations are read on every tree that is summarised again and on a sample of the others
+        deep = self.force_deep or self.rng.random() < 0.25
         rel = 1e-12 if r.exact else 1e-9
+        if "merged" in r.history:
+            ctx.ev("support-checked-after-merge")
         per_key = {}
         for s, c in cl:
             per_key[split_key(c, self.full, rooted)] = per_key.get(split_key(c, self.full, rooted), 0) + 1
@@ -626,10 +1233,25 @@ class Monitor(object):
             if key in reported:
                 return
             reported.add(key)
-            d = {"target": ref.to_newick(spec), "rooted": rooted, "settings": dict((k, repr(v)) for k, v in kw.items() if k != "tree"),
-                 "trees": [ref.to_newick(s) for s in r.specs[:8]], "weights": r.weights[:8], "bits": self.bits}
+            d = {"target": ref.to_newick(spec), "rooted": rooted,
+                 "settings": dict((k, repr(v)) for k, v in kw.items() if k != "tree"),
+                 "trees": [ref.to_newick(s) for s in r.specs[:8]], "weights": r.weights[:8], "bits": self.bits,
+                 "history": sorted(r.history)}
             d.update(detail)
             ctx.violation(key, what, d)
+
+        def annotation(target, name):
+            """(value of the annotation called name | _MISSING, number of annotations of that name)"""
+            try:
+                found = [a for a in target.annotations if a.name == name]
+            except Exception as e:       # pragma: no cover
+                return e, 1
+            if not found:
+                return _MISSING, 0
+            try:
+                return found[0].value, len(found)
+            except Exception as e:
+                return e, len(found)
         for s, c in cl:
             nd = nm[id(s)]
             key = split_key(c, self.full, rooted)
@@ -641,10 +1263,11 @@ class Monitor(object):
             if as_attr:
                 values.append(("attribute", getattr(nd, "support", _MISSING)))
             if as_ann:
-                try:
-                    values.append(("annotation", nd.annotations.get_value("support", _MISSING)))
-                except Exception as e:       # pragma: no cover
-                    values.append(("annotation", e))
+                v, k = annotation(nd, "support")
+                values.append(("annotation", v))
+                if k > 1:
+                    bad("%s|annotation-not-replaced|support" % op,
+                        "node of %s carries %d annotations called 'support'" % (krep, k), {"split": krep})
             if sel == "support":
                 values.append(("edge-length", nd.edge.length))
             wrong = [(w, v) for w, v in values
@@ -673,23 +1296,30 @@ class Monitor(object):
             if as_label:
                 ctx.ev("support-label-checked")
                 lab = nd.label
-                ok = isinstance(lab, str)
-                if ok:
-                    try:
-                        lv = float(lab)
-                    except ValueError:
-                        ok = False
-                if ok:
-                    frac = lab.split(".")[1] if "." in lab else ""
-                    ok = len(frac) == dec and abs(lv - exp) <= 0.5 * 10 ** (-dec) * (1 + 1e-6) + 1e-9
+                if compose is not None:
+                    ok = lab == compose(exp) or (not r.exact and isinstance(lab, str))
+                else:
+                    ok = isinstance(lab, str)
+                    if ok:
+                        try:
+                            lv = float(lab)
+                        except ValueError:
+                            ok = False
+                    if ok:
+                        frac = lab.split(".")[1] if "." in lab else ""
+                        ok = len(frac) == dec and abs(lv - exp) <= 0.5 * 10 ** (-dec) * (1 + 1e-6) + 1e-9
                 if not ok:
                     bad("%s|support-label-wrong" % op,
                         "label %r for support %r with %r decimals" % (lab, exp, dec), {"split": krep})
             if per_key[key] > 1:
                 ctx.note("split-induced-by-several-target-edges-summaries-not-judged")
                 continue
-            for kind, on, store, tgt in (("edge-length", len_attr, r.lengths, nd.edge), ("node-age", age_attr, r.ages, nd)):
+            for kind, on, attr, ann, store, tgt in (("edge-length", len_on, len_attr, len_ann, r.lengths, nd.edge),
+                                                    ("node-age", age_on, age_attr, age_ann, r.ages, nd)):
                 if not on:
+                    continue
+                if kind in r.values_tainted:
+                    ctx.note("downstream-not-judged-after-%s-violation-at-counting-time" % kind)
                     continue
                 vals = store.get(key)
                 if not vals:
@@ -701,51 +1331,64 @@ class Monitor(object):
                 want = summary_reference(vals)
                 pre = "length_" if kind == "edge-length" else "age_"
                 evn = "summary-stat-checked" if kind == "edge-length" else "age-summary-stat-checked"
-                for stat in ("mean", "median"):
-                    got = getattr(tgt, pre + stat, _MISSING)
-                    ctx.ev(evn)
-                    if got is _MISSING or not close(got, want[stat]):
-                        bad("%s|%s-summary-wrong|%s" % (op, kind, stat),
-                            "%s%s of %s is %r, reference %r" % (pre, stat, krep, got, want[stat]),
-                            {"split": krep, "values": vals[:20]})
-                got = getattr(tgt, pre + "range", _MISSING)
-                ctx.ev(evn)
-                try:
-                    okr = (got is not _MISSING and len(got) == 2 and close(got[0], want["range"][0])
-                           and close(got[1], want["range"][1]))
-                except TypeError:
-                    okr = False
-                if not okr:
-                    bad("%s|%s-summary-wrong|range" % (op, kind),
-                        "%srange of %s is %r, reference %r" % (pre, krep, got, want["range"]),
-                        {"split": krep, "values": vals[:20]})
-                got = getattr(tgt, pre + "sd", _MISSING)
-                if want["sd"] is None:
-                    ctx.note("sd-of-a-single-value-not-judged")
-                elif isinstance(got, complex):
-                    ctx.ev(evn)
-                    bad("summary|sd-is-a-complex-number|one-pass-variance-negative",
-                        "%ssd of %s is %r for values with sample sd %r" % (pre, krep, got, want["sd"]),
-                        {"split": krep, "values": vals[:20]})
-                else:
+                readers = []
+                if attr:
+                    readers.append(("attribute", lambda name, t=tgt: getattr(t, name, _MISSING)))
+                if ann and (deep or not attr):
+                    def read_ann(name, t=tgt):
+                        v, k = annotation(t, name)
+                        if k > 1:
+                            bad("%s|annotation-not-replaced|%s" % (op, kind),
+                                "%d annotations called %r on the %s of %s" % (k, name, kind, krep), {"split": krep})
+                        return v
+                    readers.append(("annotation", read_ann))
+                    ctx.ev("summary-annotation-read")
+                for where, read in readers:
+                    for stat in ("mean", "median"):
+                        got = read(pre + stat)
+                        ctx.ev(evn)
+                        if got is _MISSING or isinstance(got, Exception) or not close(got, want[stat]):
+                            bad("%s|%s-summary-wrong|%s" % (op, kind, stat),
+                                "%s%s (%s) of %s is %r, reference %r" % (pre, stat, where, krep, got, want[stat]),
+                                {"split": krep, "values": vals[:20]})
+                    got = read(pre + "range")
                     ctx.ev(evn)
                     try:
-                        oks = (got is not _MISSING and got >= 0
-                               and abs(got * got - want["var"]) <= 1e-9 * (want["var"] + want["mean"] ** 2) + 1e-300)
+                        okr = (got is not _MISSING and len(got) == 2 and close(got[0], want["range"][0])
+                               and close(got[1], want["range"][1]))
                     except TypeError:
-                        oks = False
-                    if not oks:
-                        bad("%s|%s-summary-wrong|sd" % (op, kind),
-                            "%ssd of %s is %r, sample sd is %r" % (pre, krep, got, want["sd"]),
+                        okr = False
+                    if not okr:
+                        bad("%s|%s-summary-wrong|range" % (op, kind),
+                            "%srange (%s) of %s is %r, reference %r" % (pre, where, krep, got, want["range"]),
                             {"split": krep, "values": vals[:20]})
-                if kind == "edge-length" and sel in ("mean-length", "median-length"):
+                    got = read(pre + "sd")
+                    if want["sd"] is None:
+                        ctx.note("sd-of-a-single-value-not-judged")
+                    elif isinstance(got, complex):
+                        ctx.ev(evn)
+                        bad("summary|sd-is-a-complex-number|one-pass-variance-negative",
+                            "%ssd of %s is %r for values with sample sd %r" % (pre, krep, got, want["sd"]),
+                            {"split": krep, "values": vals[:20]})
+                    else:
+                        ctx.ev(evn)
+                        try:
+                            oks = (got is not _MISSING and got >= 0
+                                   and abs(got * got - want["var"]) <= 1e-9 * (want["var"] + want["mean"] ** 2) + 1e-300)
+                        except TypeError:
+                            oks = False
+                        if not oks:
+                            bad("%s|%s-summary-wrong|sd" % (op, kind),
+                                "%ssd (%s) of %s is %r, sample sd is %r" % (pre, where, krep, got, want["sd"]),
+                                {"split": krep, "values": vals[:20]})
+                if kind == "edge-length" and sel in MEAN_LEN:
                     ctx.ev(evn)
                     w = want["mean" if sel == "mean-length" else "median"]
                     if nd.edge.length is None or not close(nd.edge.length, w):
                         bad("%s|set_edge_lengths-wrong|%s" % (op, sel),
                             "edge length of %s set to %r, reference %r" % (krep, nd.edge.length, w),
                             {"split": krep, "values": vals[:20]})
-                if kind == "node-age" and sel in ("mean-age", "median-age"):
+                if kind == "node-age" and sel in MEAN_AGE:
                     ctx.ev(evn)
                     w = want["mean" if sel == "mean-age" else "median"]
                     ga = getattr(nd, "age", _MISSING)
@@ -755,58 +1398,86 @@ class Monitor(object):
                             {"split": krep, "values": vals[:20]})
 
     # ---- K: collapse -------------------------------------------------------------------------------------------
-    def collapse_pre(self, sd, args, kw):
-        tree = _arg(args, kw, 0, "tree")
-        try:
-            return bridge.extract(tree)
-        except bridge.ExtractError:
-            return None
+    def _collapse_frame(self):
+        for fr in self.frames:
+            if fr.op == "collapse":
+                return fr
+        return None
 
-    def collapse_post(self, snap, sd, args, kw, result, exc):
+    def collapse_post(self, fr, sd, args, kw, result, exc):
         ctx = self.ctx
-        if exc is not None:
-            if isinstance(exc, ValueError) and "rooted" in str(exc):
-                ctx.ev("documented-error:collapse:ValueError")
-                return
-            ctx.unexpected("collapse_edges_with_less_than_minimum_support", exc)
-            return
         r = self.ref_of(sd)
-        if not self.usable(r) or snap is None:
+        outer = self._collapse_frame() or fr
+        tree = fr.data["tree"]
+        if exc is not None:
+            if exc is self.last_exc:
+                return
+            if isinstance(exc, ValueError):
+                self.last_exc = exc
+                if r is None or r.rooted is None or r.mixed or bool(tree.is_rooted) != bool(r.rooted):
+                    # documented: the rooting state of the tree differs from that of the counted trees
+                    ctx.ev("documented-error:collapse:ValueError")
+                    return
+                ctx.violation("collapse|raised-on-valid-request|%s" % _ru(r.rooted),
+                              "collapse raised %s on a tree with the rooting state of the input trees" % core_brief(exc),
+                              {"tree.is_rooted": tree.is_rooted, "inputs": _ru(r.rooted)})
+                return
+            self.report_exc("collapse_edges_with_less_than_minimum_support", exc)
             return
-        tree = _arg(args, kw, 0, "tree")
-        thr = _arg(args, kw, 1, "min_freq", _gth())
+        if not self.usable(r) or outer.data["pre"] is None:
+            return
+        thr, _ = self.requested("thr")
+        self.judge_collapse(self.key_op("collapse", "thr", fr.thr), r, outer.data["pre"], tree, thr)
+        self.mark("judged_cons", tree)
+
+    def outer_collapse_post(self, fr, ta, args, kw, result, exc):
+        if exc is not None:
+            if exc is not self.last_exc:
+                self.report_exc(fr.route, exc)
+            return
+        tree = fr.data["tree"]
+        if self.judged_unchanged(fr, tree) or fr.data["pre"] is None:
+            return
+        r = self.ref_for(ta, fr)
+        if not self.usable(r):
+            return
+        self.ctx.ev("judged-at-the-outer-boundary")
+        self.judge_collapse(fr.route, r, fr.data["pre"], tree, fr.thr)
+        self.mark("judged_cons", tree)
+
+    def judge_collapse(self, op, r, pre, tree, thr):
+        ctx = self.ctx
         try:
             post = bridge.extract(tree)
         except bridge.ExtractError as e:
-            ctx.violation("collapse|malformed-tree", str(e))
+            ctx.violation("%s|malformed-tree" % op, str(e))
             return
-        pre = snap
         rooted = r.rooted
         if frozenset(ref.leaf_taxa(pre)) != self.full:
-            ctx.note("collapse-target-leafset-differs-from-namespace")
+            ctx.mark_inconclusive("the harness collapsed a target whose leaves are not the namespace's taxa")
             return
         ctx.ev("collapse-checked")
         detail = {"before": ref.to_newick(pre), "after": ref.to_newick(post), "threshold": thr, "rooted": rooted,
                   "trees": [ref.to_newick(s) for s in r.specs[:8]], "weights": r.weights[:8]}
         if sorted(ref.leaf_taxa(post)) != sorted(ref.leaf_taxa(pre)):
-            ctx.violation("collapse|leaf-set-changed", "leaves differ after collapse", detail)
+            ctx.violation("%s|leaf-set-changed" % op, "leaves differ after collapse", detail)
             return
         P = ref.nontrivial_splits(pre, rooted)
         Q = ref.nontrivial_splits(post, rooted)
         slack = 0.0 if r.exact else 1e-9
         for s in Q - P:
             d = dict(detail, split=key_repr(s, rooted, self.full))
-            ctx.violation("collapse|new-split-appeared|%s" % _ru(rooted), "collapse created a split", d)
+            ctx.violation("%s|new-split-appeared|%s" % (op, _ru(rooted)), "collapse created a split", d)
             break
         for s in P:
             f = r.freq(s)
             d = dict(detail, split=key_repr(s, rooted, self.full), f=f)
             if f >= thr + slack and s not in Q:
-                ctx.violation("collapse|removed-edge-at-or-above-threshold|%s" % _ru(rooted),
+                ctx.violation("%s|removed-edge-at-or-above-threshold|%s" % (op, _ru(rooted)),
                               "edge with f=%r removed at threshold %r" % (f, thr), d)
                 break
             if f < thr - slack and s in Q:
-                ctx.violation("collapse|kept-edge-below-threshold|%s" % _ru(rooted),
+                ctx.violation("%s|kept-edge-below-threshold|%s" % (op, _ru(rooted)),
                               "edge with f=%r kept at threshold %r" % (f, thr), d)
                 break
         if not rooted and len(pre[3]) == 2:
@@ -819,7 +1490,7 @@ class Monitor(object):
         for lab, d0 in dpre.items():
             ctx.ev("root-to-tip-checked")
             if not close(d0, dpost.get(lab, float("nan")), rel=1e-9, abs_=1e-9):
-                ctx.violation("collapse|root-to-tip-distance-changed|%s" % _ru(rooted),
+                ctx.violation("%s|root-to-tip-distance-changed|%s" % (op, _ru(rooted)),
                               "distance root -> %s was %r, is %r" % (lab, d0, dpost.get(lab)), detail)
                 break
 
@@ -828,19 +1499,17 @@ class Monitor(object):
         def post(snap, ta, args, kw, result, exc):
             ctx = self.ctx
             if exc is not None:
-                ctx.unexpected("calculate_%s_of_split_supports" % kind, exc)
+                self.report_exc("calculate_%s_of_split_supports" % kind, exc)
                 return
             scores, idx = result
-            self.last_calc = (kind, list(scores), idx, ta)
-            e = self.reg_ta.get(id(ta))
-            r = e[1] if e is not None else None
+            r = self.ta_ref(ta)
             if r is None or not scores:
                 return
             ctx.ev("scores-checked")
             if idx is None or scores[idx] != max(scores):
                 ctx.violation("calculate-%s|returned-index-is-not-an-argmax" % kind,
                               "index %r, scores %r" % (idx, scores[:10]))
-            if r.tainted or r.mixed or len(scores) != r.n:
+            if self.own_call or r.tainted or r.mixed or len(scores) != r.n:
                 return
             incl = _arg(args, kw, 0, "include_external_splits", False)
             for i, spec in enumerate(r.specs):
@@ -861,26 +1530,40 @@ class Monitor(object):
                     break
         return post
 
+    def collection_scores(self, ta, kind, incl):
+        """the scores the collection itself reports (the statement's yardstick), asked for by the monitor."""
+        fn = ta.calculate_log_product_of_split_supports if kind == "log-product" else ta.calculate_sum_of_split_supports
+        self.own_call += 1
+        try:
+            scores, idx = fn(include_external_splits=incl)
+        finally:
+            self.own_call -= 1
+        return list(scores)
+
     def maxtree_post(self, kind):
-        def post(snap, ta, args, kw, result, exc):
+        def post(fr, ta, args, kw, result, exc):
             ctx = self.ctx
-            self.pop(snap)
-            op = "max-product-tree" if kind == "log-product" else "max-sum-tree"
+            op = fr.op
             if exc is not None:
-                sel = kw.get("set_edge_lengths")
-                if isinstance(exc, ValueError) and sel in ("mean-length", "median-length", "mean-age", "median-age"):
-                    return
-                ctx.unexpected(op, exc)
+                if exc is not self.last_exc:
+                    self.report_exc(op, exc)
                 return
-            e = self.reg_ta.get(id(ta))
-            r = e[1] if e is not None else None
-            if r is None or r.mixed or r.n == 0:
+            r = self.ta_ref(ta)
+            if r is None:
+                ctx.mark_inconclusive("max-credibility tree of a collection the monitor did not see being built")
                 return
-            calc = self.last_calc
-            if calc is None or calc[0] != kind or calc[3] is not ta or len(calc[1]) != r.n:
-                ctx.note("scores-not-observed-for-max-tree")
+            if r.mixed or r.n == 0:
+                ctx.note("empty-or-mixed-distribution-not-judged")
                 return
-            scores = calc[1]
+            try:
+                scores = self.collection_scores(ta, kind, fr.data["incl"])
+            except Exception as e:
+                self.report_exc("calculate_%s_of_split_supports" % kind, e)
+                return
+            if len(scores) != r.n:
+                ctx.violation("%s|collection-does-not-report-one-score-per-tree" % op,
+                              "%d scores for %d trees" % (len(scores), r.n))
+                return
             best = max(scores)
             try:
                 spec = bridge.extract(result)
@@ -888,64 +1571,196 @@ class Monitor(object):
                 ctx.violation("%s|malformed-tree" % op, str(ex))
                 return
             ctx.ev("maxcred-checked")
+            for tag in r.history:
+                ctx.ev("maxcred-checked-after:%s" % tag)
             topo = ref.topology(spec, r.rooted)
             winners = [i for i, s in enumerate(scores) if s == best]
+            if len(set(repr(sorted(map(repr, t))) for t in r.topos)) > 1 and len(winners) < r.n:
+                ctx.ev("maxcred-checked:discriminating")
             if not any(r.topos[i] == topo for i in winners) or sorted(ref.leaf_taxa(spec)) != sorted(self.full):
                 ctx.violation("%s|topology-is-not-that-of-an-argmax-input-tree|%s" % (op, _ru(r.rooted)),
                               "returned tree differs from every input tree with the maximal reported score",
-                              {"returned": ref.to_newick(spec), "scores": scores[:12],
+                              {"returned": ref.to_newick(spec), "scores": scores[:12], "history": sorted(r.history),
                                "argmax-trees": [ref.to_newick(r.specs[i]) for i in winners[:3]]})
             if bool(result.is_rooted) != bool(r.rooted):
                 ctx.violation("%s|rooting-state-differs-from-inputs" % op, "is_rooted=%r" % result.is_rooted)
+            self.mark("judged_cons", result)
+            if fr.data["summarize"] and id(result) not in fr.judged_ann and self.usable(r):
+                ctx.ev("judged-at-the-outer-boundary")
+                self.judge_annotations(fr.route, result, r, fr.kw)
         return post
 
     def tl_maxtree_post(self, kind):
-        def post(snap, tl, args, kw, result, exc):
+        def post(fr, tl, args, kw, result, exc):
             ctx = self.ctx
-            op = "TreeList.max-product-tree" if kind == "log-product" else "TreeList.max-sum-tree"
+            op = fr.op
             if exc is not None:
-                ctx.unexpected(op, exc)
+                self.report_exc(op, exc)
                 return
-            calc = self.last_calc
-            if calc is None or calc[0] != kind or len(calc[1]) != len(tl):
-                ctx.note("scores-not-observed-for-max-tree")
+            if len(tl) == 0:
                 return
-            scores = calc[1]
+            # the collection that reports the scores: the array the list built for the request
+            ta = fr.tas[-1] if fr.tas else None
+            try:
+                if ta is None or len(ta) != len(tl):
+                    self.own_call += 1
+                    try:
+                        ta = tl.as_tree_array()
+                    finally:
+                        self.own_call -= 1
+                scores = self.collection_scores(ta, kind, fr.data["incl"])
+            except Exception as e:
+                self.report_exc(op, e)
+                return
+            if len(scores) != len(tl):
+                ctx.violation("%s|collection-does-not-report-one-score-per-tree" % op,
+                              "%d scores for %d trees" % (len(scores), len(tl)))
+                return
             best = max(scores)
-            ctx.ev("maxcred-checked")
-            if not any(result is tl[i] for i, s in enumerate(scores) if s == best):
+            ctx.ev("maxcred-checked:TreeList")
+            try:
+                rooted = bool(result.is_rooted)
+                topo = ref.topology(bridge.extract(result), rooted)
+                wtopos = [ref.topology(bridge.extract(tl[i]), rooted) for i, s in enumerate(scores) if s == best]
+            except bridge.ExtractError as ex:
+                ctx.violation("%s|malformed-tree" % op, str(ex))
+                return
+            if topo not in wtopos:
                 ctx.violation("%s|returned-tree-is-not-an-argmax-input-tree" % op,
                               "scores %r" % scores[:12])
         return post
 
     # ---- legacy treesum -------------------------------------------------------------------------------------------------
-    def legacy_tree_from_splits_post(self, snap, ts, args, kw, result, exc):
-        ctx = self.ctx
+    def legacy_settings(self, ts):
+        e = self.reg_ts.get(id(ts))
+        if e is not None and e[0] is ts:
+            req = e[1]
+        else:
+            self.ctx.note("legacy-summarizer-constructed-unobserved")
+            req = dict((k, getattr(ts, k)) for k in ("support_as_labels", "support_as_percentages", "add_node_metadata",
+                                                     "support_label_decimals") if hasattr(ts, k))
+        return {"support_as_labels": req.get("support_as_labels", True),
+                "support_as_percentages": req.get("support_as_percentages", False),
+                "add_node_metadata": req.get("add_node_metadata", True),
+                "support_label_decimals": req.get("support_label_decimals", 4)}
+
+    def legacy_tree_from_splits_post(self, fr, ts, args, kw, result, exc):
         if exc is not None:
-            ctx.unexpected("treesum.tree_from_splits", exc)
+            self.report_exc("treesum.tree_from_splits", exc)
             return
         sd = _arg(args, kw, 0, "split_distribution")
         r = self.ref_of(sd)
         if not self.usable(r):
             return
-        thr = _arg(args, kw, 1, "min_freq", 0.5)
-        self.judge_consensus("legacy-tree_from_splits", result, r, thr)
+        thr, _ = self.requested("thr")
+        op = self.key_op("legacy-tree_from_splits", "thr", fr.thr)
+        self.judge_consensus(op, result, r, thr)
         incl = _arg(args, kw, 3, "include_edge_lengths", True)
-        self.judge_legacy_support("legacy-tree_from_splits", result, r, ts, lengths=incl, only_present=True)
+        self.judge_legacy_support(op, result, r, self.legacy_settings(ts), lengths=incl, only_present=True)
+        self.mark("judged_cons", result)
+
+    def legacy_outer_post(self, fr, ts, args, kw, result, exc):
+        if exc is not None:
+            self.report_exc(fr.route, exc)
+            return
+        if self.judged_unchanged(fr, result):
+            return
+        r = fr.refs[-1] if fr.refs else None
+        if not self.usable(r):
+            return
+        self.ctx.ev("judged-at-the-outer-boundary")
+        self.judge_consensus(fr.route, result, r, fr.thr)
 
     def legacy_map_support_post(self, snap, ts, args, kw, result, exc):
-        ctx = self.ctx
         if exc is not None:
-            ctx.unexpected("treesum.map_split_support_to_tree", exc)
+            self.report_exc("treesum.map_split_support_to_tree", exc)
             return
         sd = _arg(args, kw, 1, "split_distribution")
         tree = _arg(args, kw, 0, "tree")
         r = self.ref_of(sd)
         if not self.usable(r):
             return
-        self.judge_legacy_support("legacy-map_split_support_to_tree", tree, r, ts, lengths=False, only_present=False)
+        self.judge_legacy_support("legacy-map_split_support_to_tree", tree, r, self.legacy_settings(ts),
+                                  lengths=False, only_present=False)
 
-    def judge_legacy_support(self, op, tree, r, ts, lengths, only_present):
+    def legacy_annotate_post(self, snap, ts, args, kw, result, exc):
+        """TreeSummarizer.annotate_nodes_and_edges: length_* / age_* attributes with bound annotations, no support."""
+        op = "legacy-annotate_nodes_and_edges"
+        if exc is not None:
+            self.report_exc(op, exc)
+            return
+        r = self.ref_of(_arg(args, kw, 1, "split_distribution"))
+        if not self.usable(r):
+            return
+        self.ctx.ev("legacy-annotate-checked")
+        self.judge_annotations(op, _arg(args, kw, 0, "tree"), r,
+                               {"add_support_as_node_attribute": False, "add_support_as_node_annotation": False})
+
+    @staticmethod
+    def legacy_values_pre(ts, args, kw):
+        tree = _arg(args, kw, 0, "tree")
+        return "target-encoded-beforehand" if getattr(tree, "bipartition_encoding", None) else "target-never-encoded"
+
+    def legacy_values_post(self, kind):
+        """TreeSummarizer.summarize_edge_lengths_on_tree / summarize_node_ages_on_tree with the default summarisation
+        function (documented: the mean): every edge length / node age of the target whose split has a complete value
+        list in the reference equals the mean of that list."""
+        op = "legacy-summarize_%s_on_tree" % ("edge_lengths" if kind == "edge-length" else "node_ages")
+
+        def post(snap, ts, args, kw, result, exc):
+            ctx = self.ctx
+            r = self.ref_of(_arg(args, kw, 1, "split_distribution"))
+            tree = _arg(args, kw, 0, "tree")
+            if _arg(args, kw, None, "summarization_fn") is not None:
+                return
+            if r is None or r.n == 0 or r.mixed or r.tainted or kind in r.values_tainted:
+                if exc is not None:
+                    self.last_exc = exc
+                return
+            store = r.lengths if kind == "edge-length" else r.ages
+            on = (not r.ignore_lengths) if kind == "edge-length" else (not r.ignore_ages and r.rooted)
+            if exc is not None:
+                if not on or not r.usable_values(store):
+                    self.last_exc = exc
+                    ctx.ev("documented-error:%s" % op)
+                    return
+                self.report_exc(op, exc)
+                return
+            if not on:
+                return
+            try:
+                spec, nodes = bridge.extract(tree, with_nodes=True)
+            except bridge.ExtractError as e:
+                ctx.violation("%s|malformed-tree" % op, str(e))
+                return
+            nm = bridge.node_map(nodes)
+            cl = ref.clades(spec)
+            if cl[-1][1] != self.full or len(ref.leaf_taxa(spec)) != len(self.full):
+                ctx.mark_inconclusive("the harness summarised a target whose leaves are not the namespace's taxa")
+                return
+            per_key = {}
+            for s_, c in cl:
+                k = split_key(c, self.full, r.rooted)
+                per_key[k] = per_key.get(k, 0) + 1
+            for s_, c in cl:
+                key = split_key(c, self.full, r.rooted)
+                vals = store.get(key)
+                if per_key[key] > 1 or not vals or any(v is None for v in vals):
+                    continue
+                nd = nm[id(s_)]
+                want = summary_reference(vals)["mean"]
+                got = nd.edge.length if kind == "edge-length" else getattr(nd, "age", _MISSING)
+                ctx.ev("legacy-value-checked:%s" % kind)
+                if got is _MISSING or got is None or not close(got, want):
+                    ctx.violation("%s|%s-summary-wrong|mean|%s" % (op, kind, snap),
+                                  "%s of %s set to %r, mean of the split's values %r" % (
+                                      kind, key_repr(key, r.rooted, self.full), got, want),
+                                  {"target": ref.to_newick(spec), "values": vals[:20], "rooted": r.rooted,
+                                   "trees": [ref.to_newick(x) for x in r.specs[:8]]})
+                    return
+        return post
+
+    def judge_legacy_support(self, op, tree, r, st, lengths, only_present):
         ctx = self.ctx
         try:
             spec, nodes = bridge.extract(tree, with_nodes=True)
@@ -955,11 +1770,12 @@ class Monitor(object):
         nm = bridge.node_map(nodes)
         cl = ref.clades(spec)
         if cl[-1][1] != self.full or len(ref.leaf_taxa(spec)) != len(self.full):
+            ctx.mark_inconclusive("the harness summarised a target whose leaves are not the namespace's taxa")
             return
         rooted = r.rooted
         rel = 1e-12 if r.exact else 1e-9
         detail = {"target": ref.to_newick(spec), "trees": [ref.to_newick(s) for s in r.specs[:8]],
-                  "weights": r.weights[:8], "rooted": rooted}
+                  "weights": r.weights[:8], "rooted": rooted, "settings": dict((k, repr(v)) for k, v in st.items())}
         done = set()
         for s, c in cl:
             nd = nm[id(s)]
@@ -967,18 +1783,18 @@ class Monitor(object):
             if only_present and key not in r.counts:
                 continue
             f = r.freq(key)
-            exp = f * 100 if ts.support_as_percentages else f
+            exp = f * 100 if st["support_as_percentages"] else f
             ctx.ev("support-checked")
-            if ts.add_node_metadata:
+            if st["add_node_metadata"]:
                 got = getattr(nd, "support", _MISSING)
                 if (got is _MISSING or not close(got, exp, rel=rel, abs_=1e-13)) and "s" not in done:
                     done.add("s")
                     ctx.violation("%s|support-wrong|value" % op,
                                   "support of %s is %r, frequency %r" % (key_repr(key, rooted, self.full), got, exp),
                                   detail)
-            if ts.support_as_labels:
+            if st["support_as_labels"]:
                 ctx.ev("support-label-checked")
-                dec = ts.support_label_decimals
+                dec = st["support_label_decimals"]
                 lab = nd.label
                 ok = isinstance(lab, str)
                 if ok:
@@ -987,12 +1803,12 @@ class Monitor(object):
                     except ValueError:
                         ok = False
                 if ok:
-                    d = dec if dec > 0 else (0 if ts.support_as_percentages else 4)
+                    d = dec if dec > 0 else (0 if st["support_as_percentages"] else 4)
                     ok = abs(lv - exp) <= 0.5 * 10 ** (-d) * (1 + 1e-6) + 1e-9
                 if not ok and "l" not in done:
                     done.add("l")
                     ctx.violation("%s|support-label-wrong" % op, "label %r for support %r" % (lab, exp), detail)
-            if lengths and not r.ignore_lengths:
+            if lengths and not r.ignore_lengths and "edge-length" not in r.values_tainted:
                 vals = r.lengths.get(key)
                 if vals and all(v is not None for v in vals):
                     ctx.ev("summary-stat-checked")
@@ -1003,3 +1819,6 @@ class Monitor(object):
                                       "edge length %r, mean of the split's lengths %r" % (nd.edge.length, want), detail)
 
 
+def core_brief(exc):
+    s = "%s: %s" % (type(exc).__name__, exc)
+    return s if len(s) < 200 else s[:200] + "..."
